@@ -196,7 +196,7 @@ def _check_oneshot(dec, b, spec, kw, step_budget):
         d = W.describe_exc(ex)
         return W.Violation('non-library-exception', mode='oneshot', exc_cls=d['cls'], msg=d['msg'], site=d['site'])
     if not (isinstance(out, tuple) and len(out) == 2):
-        return W.Violation('result-not-a-pair', mode='oneshot', what=repr(out)[:80])
+        return W.Violation('result-not-a-pair', mode='oneshot', what=U.safe_repr(out, 80))
     bad = _value_ok(out[0])
     if bad:
         return W.Violation('bad-value-returned', mode='oneshot', exc_cls=bad.split(':')[0], what=bad)
@@ -302,7 +302,7 @@ def _stream(plan, b, dec, spec, kw, step_budget, ctr, trace, nontrivial):
                 d = W.describe_exc(payload)
                 raise W.Violation('non-library-exception', mode='stream', exc_cls=d['cls'], msg=d['msg'], site=d['site'])
             raise W.Violation('bad-value-returned', mode='stream', exc_cls='not-an-asn1-object',
-                              what='yielded %s' % (repr(payload)[:60]))
+                              what='yielded %s' % (U.safe_repr(payload, 60)))
 
         try:
             for idx, step in enumerate(plan['steps']):
